@@ -7,6 +7,7 @@ HARNESSES = {
     "c11": {"src": _C11_SRC, "variant": "prod"},
     # stand-alone reproducers of the known findings (not part of the check; `bin/vcheck harness c11_repro`)
     "c11_repro": {"src": ["harness/c11_repro.cc"], "variant": "prod"},
+    "c11_repro_denorm": {"src": ["harness/c11_repro_denorm.cc"], "variant": "prod"},
     "c11_repro_i8": {"src": ["harness/c11_repro_i8.cc"], "variant": "i8"},
     # part 2: the same lock-step source against the mpz build and the checked-integer builds
     "c11_ls_prod": {"src": ["harness/c11_lockstep.cc"], "variant": "prod", "flags": NOAC},
